@@ -762,8 +762,8 @@ theorem step_returndatacopy_out_of_bounds (env : Env) (s : St) (memIdx inIdx siz
       · simp [h64, h2]
       · simp [h64, h2, hoob]
 
-/-- MSTORE, stack / pc / failure part only (`_partial`: the memory *content* after the store is validated by
-    the correspondence runs, not proved): with `idx :: v :: rest` on the stack it fails with "illegal memory
+/-- MSTORE, stack / pc / failure part only (`_partial`: stack / pc / failure; the memory *content* after the store is
+    `step_mstore_memory_bytes` and the read-back is `step_mstore_mload` below): with `idx :: v :: rest` on the stack it fails with "illegal memory
     access" exactly when idx + 32 exceeds u32::MAX, otherwise pops both, advances pc, leaves storage, transient
     storage and return data alone, and the memory is the 32-byte store into the memory grown to idx + 32. -/
 theorem step_mstore_partial (env : Env) (s : St) (idx v : W) (rest : List W)
@@ -786,6 +786,42 @@ theorem step_mstore_partial (env : Env) (s : St) (idx v : W) (rest : List W)
   · left; rw [e]; exact ⟨h, rfl⟩
   · right; rw [e]; exact ⟨h, rfl⟩
 
+
+/-- **MSTORE memory content** (completes `step_mstore_partial`): byte `j` of the memory written by
+    MSTORE at `idx` is byte `j - idx` of the big-endian image of `v` inside `[idx, idx+32)` and the old byte
+    (0 beyond the old size) everywhere else — growth itself changes no byte. -/
+theorem step_mstore_memory_bytes (m : ByteArray) (idx : Nat) (v : W) (j : Nat) :
+    (writeBytes (memGrow m (idx + 32)) idx (wordToBytes v))[j]! =
+      if idx ≤ j ∧ j < idx + 32 then (wordToBytes v)[j - idx]! else m[j]! :=
+  mstore_memory_bytes m idx v j
+
+/-- **MSTORE ; MLOAD round trip**: for every 256-bit value `v` and every admissible offset, the word read
+    back by MLOAD at the offset MSTORE wrote to is `v`, and the read changes nothing else. -/
+theorem step_mstore_mload (env : Env) (s : St) (idx v : W) (rest : List W)
+    (hst : s.stack = idx :: v :: rest) (hb : idx.toNat + 32 ≤ u32Max) :
+    ∃ s1, stepOther env s 0x52 = .ok s1 ∧ s1.stack = rest ∧
+      stepOther env { s1 with stack := idx :: rest } 0x51 =
+        .ok { s1 with stack := v :: rest, pc := s1.pc + 1 } := by
+  rcases step_mstore_partial env s idx v rest hst with ⟨h, _⟩ | ⟨_, h⟩
+  · omega
+  · refine ⟨_, h, rfl, ?_⟩
+    rw [stepOther_mload]
+    simp only []
+    rcases memRegion32 (writeBytes (memGrow s.memory (idx.toNat + 32)) idx.toNat (wordToBytes v)) idx with ⟨h', _⟩ | ⟨_, e⟩
+    · omega
+    · rw [e]
+      simp only []
+      have hg : memGrow (writeBytes (memGrow s.memory (idx.toNat + 32)) idx.toNat (wordToBytes v)) (idx.toNat + 32)
+          = writeBytes (memGrow s.memory (idx.toNat + 32)) idx.toNat (wordToBytes v) := by
+        exact memGrow_of_le _ _ (by rw [writeBytes_size]; exact memGrow_size_ge _ _)
+      rw [hg, mslice_written, bytesToWord_wordToBytes]
+
+/-- non-vacuity: the round trip on a concrete state (offset 5, an all-ones word, empty memory) -/
+example : ∃ s1, stepOther ⟨#[], #[], fun _ => none, #[]⟩ { stack := [5#256, BitVec.allOnes 256, 7#256] } 0x52 = .ok s1 ∧
+    s1.stack = [7#256] ∧
+    stepOther ⟨#[], #[], fun _ => none, #[]⟩ { s1 with stack := [5#256, 7#256] } 0x51 =
+      .ok { s1 with stack := [BitVec.allOnes 256, 7#256], pc := s1.pc + 1 } :=
+  step_mstore_mload _ _ _ _ _ rfl (by decide)
 
 /-- CALLDATACOPY / CODECOPY memory effect (`copy_to_memory` with zero fill): when the destination region is
     admissible (size ≠ 0, offset + size ≤ u32::MAX), byte i of the region becomes data[dataOff + i], or zero
